@@ -2368,6 +2368,35 @@ func (m *Model) ruleRMW(r *Results) {
 				found = true
 			}
 		}
+		// ... or by a read helper that is handed the supplied CAS and succeeds only where it is zero
+		// or equals the CAS the helper read: the write then lies behind the helper's success
+		m.eachCall(fn, func(hc ssa.CallInstruction) {
+			call, ok := hc.(*ssa.Call)
+			h := hc.Common().StaticCallee()
+			if !ok || h == nil || !m.inPkg(h) || len(h.Blocks) == 0 || h == fn {
+				return
+			}
+			for pi, a := range call.Common().Args {
+				if stripConv(a) != ssa.Value(P) || pi >= len(h.Params) || !m.succeedsOnlyWhereCasMatches(h, h.Params[pi]) {
+					continue
+				}
+				herr := writeErrValue(call)
+				if herr == nil {
+					continue
+				}
+				for _, iff := range allIfs(fn) {
+					cd := condOf(iff)
+					eq, ok := cd.equalEdge()
+					if !ok {
+						continue
+					}
+					if isNilConst(cd.Y) && stripConv(cd.X) == herr || isNilConst(cd.X) && stripConv(cd.Y) == herr {
+						c.cutEdge(iff.Block(), eq)
+						found = true
+					}
+				}
+			}
+		})
 		for _, w := range lp.Writes {
 			r.check(found && !entryReach(fn, c)[w.Block().Index], rule, name+" / supplied CAS honoured", m.instrPos(w), "a non-zero caller-supplied CAS must equal the CAS just read before the write-back is attempted", "the caller-supplied CAS is not compared with the CAS that was read before writing back")
 		}
@@ -2585,6 +2614,39 @@ func (m *Model) loopsOnlyOnCasError(fn *ssa.Function, w ssa.CallInstruction, err
 				isCasTest = true
 			}
 			if f := call.Common().StaticCallee(); f != nil && m.isCasErrorPredicate(f) && flowsThroughPhi(errV, call.Common().Args[0]) {
+				isCasTest = true
+			}
+		}
+		// `x && <cas test>`: the condition block is a phi of false and the test
+		if phi, ok := cond.(*ssa.Phi); ok && !neg {
+			all, any := true, false
+			for _, e := range phi.Edges {
+				e = stripConv(e)
+				if k, ok := e.(*ssa.Const); ok && k.Value != nil && k.Value.Kind() == constant.Bool && !constant.BoolVal(k.Value) {
+					continue
+				}
+				isT := false
+				if ex, ok := e.(*ssa.Extract); ok {
+					if ta, ok := ex.Tuple.(*ssa.TypeAssert); ok && ex.Index == 1 && flowsThroughPhi(errV, ta.X) && isNamed(ta.AssertedType, sgbucketPath, "CasMismatchErr") {
+						isT = true
+					}
+				}
+				if call, ok := e.(*ssa.Call); ok && len(call.Common().Args) > 0 {
+					f := call.Common().StaticCallee()
+					if f != nil && f.Pkg != nil && f.Pkg.Pkg.Path() == "errors" && (f.Name() == "Is" || f.Name() == "As") && flowsThroughPhi(errV, call.Common().Args[0]) {
+						isT = true
+					}
+					if f != nil && m.isCasErrorPredicate(f) && flowsThroughPhi(errV, call.Common().Args[0]) {
+						isT = true
+					}
+				}
+				if isT {
+					any = true
+				} else {
+					all = false
+				}
+			}
+			if all && any {
 				isCasTest = true
 			}
 		}
@@ -3873,4 +3935,59 @@ func (m *Model) fieldOfHelperRowIsCas(fa *ssa.FieldAddr) (bool, string) {
 		}
 	}
 	return false, ""
+}
+
+// succeedsOnlyWhereCasMatches: helper h compares its parameter p with zero and with an integer
+// result of a call it makes (the CAS it read), and every return it can reach without passing
+// the equal edge of one of those comparisons certainly carries an error.
+func (m *Model) succeedsOnlyWhereCasMatches(h *ssa.Function, p *ssa.Parameter) bool {
+	c := newCut()
+	compared := false
+	for _, iff := range allIfs(h) {
+		cd := condOf(iff)
+		eq, ok := cd.equalEdge()
+		if !ok {
+			continue
+		}
+		var other ssa.Value
+		if stripConv(cd.X) == ssa.Value(p) {
+			other = cd.Y
+		} else if stripConv(cd.Y) == ssa.Value(p) {
+			other = cd.X
+		}
+		if other == nil {
+			continue
+		}
+		if isZeroConst(other) {
+			c.cutEdge(iff.Block(), eq)
+			continue
+		}
+		o := stripConv(other)
+		if ld, ok := o.(*ssa.UnOp); ok && ld.Op == token.MUL {
+			// a named result the read was assigned to
+			if al, ok := ld.X.(*ssa.Alloc); ok {
+				for _, st := range cellStores(al) {
+					if ex, ok := stripConv(st.Val).(*ssa.Extract); ok {
+						o = ex
+					}
+				}
+			}
+		}
+		if ex, ok := o.(*ssa.Extract); ok {
+			if _, isCall := ex.Tuple.(*ssa.Call); isCall {
+				c.cutEdge(iff.Block(), eq)
+				compared = true
+			}
+		}
+	}
+	if !compared {
+		return false
+	}
+	reach := entryReach(h, c)
+	for _, ret := range returnsOf(h) {
+		if reach[ret.Block().Index] && !m.returnFails(ret, 0) {
+			return false
+		}
+	}
+	return true
 }
